@@ -1,3 +1,153 @@
 import Nv.OracleIO
-/-! oracle_c01 — stub (model not built yet): answers `bad-op` to every line. -/
-def main : IO Unit := Nv.oracleMain (fun (_ : Unit) _ => ((), "bad-op")) ()
+import Nv.Model.C01
+import Nv.Gen.C01
+/-!
+oracle_c01 — line protocol (one result line per input line; the first line of a script is `new …`):
+  `new <single|wide|xhash> <rw ≥ 1> <prime>`  → `ok`            (re)initialises; the routing of the sharded
+                                                                 variants is not observable, all three share the model
+  `acqR <t> <key>` / `acqW <t> <key>`         → `granted` | `parked`          fresh caller id `t`
+  `acqRx <t> <key>` / `acqWx <t> <key>`       → `granted` | `ctx woke=[…]`    same with an already cancelled context
+  `rel <t>`                                   → `ok woke=[…]`                 `t` must be inside; woke = callers admitted by it
+  `cancel <t>`                                → `ctx woke=[…]` (was waiting) | `noop` (holding or finished)
+  `inside <key>`                              → `r=<readers> w=<writers>`     callers inside the critical section
+  `who`                                       → `in=[…] parked=[…]`           all callers, sorted by id
+  `entries`                                   → number of entries the container keeps
+  `state <key>`                               → `cur=<n> waiters=<n> present=<0|1>`   (T-observable, through a hook)
+Keys: `i<int64>` (canonical decimal) or `s<text>`. Ill-formed or not-enabled lines → `bad-op`.
+The delete guard is the one regenerated from the source (`Nv.Gen.C01.cfg`).
+-/
+open Nv Nv.C01
+
+structure OSt where
+  started : Bool
+  rw : Nat
+  st : State
+  keys : List String                  -- interned key tokens; position = model key
+  calls : List (Tid × Key × Bool)     -- every caller id used since `new`: (id, key, write)
+
+def OSt.empty : OSt := ⟨false, 1, Nv.C01.init, [], []⟩
+
+def cfg : Cfg := Nv.Gen.C01.cfg
+
+/-- canonical decimal natural of at most `maxLen` digits -/
+def natCanon (s : String) (maxLen : Nat) : Option Nat :=
+  if s.length == 0 || s.length > maxLen then none
+  else if !s.toList.all Char.isDigit then none
+  else match s.toNat? with
+    | some n => if toString n == s then some n else none
+    | none => none
+
+def validKey (s : String) : Bool :=
+  match s.toList with
+  | 's' :: _ => true
+  | 'i' :: rest =>
+    let body := String.ofList rest
+    if body.length > 20 then false else
+    match body.toInt? with
+    | some v => toString v == body && decide (-9223372036854775808 ≤ v) && decide (v ≤ 9223372036854775807)
+    | none => false
+  | _ => false
+
+def findIdx (l : List String) (s : String) : Option Nat :=
+  let rec go : List String → Nat → Option Nat
+    | [], _ => none
+    | x :: xs, i => if x == s then some i else go xs (i+1)
+  go l 0
+
+def intern (o : OSt) (tok : String) : OSt × Key :=
+  match findIdx o.keys tok with
+  | some i => (o, i)
+  | none => ({ o with keys := o.keys ++ [tok] }, o.keys.length)
+
+def insertSorted (x : Nat) : List Nat → List Nat
+  | [] => [x]
+  | y :: ys => if x ≤ y then x :: y :: ys else y :: insertSorted x ys
+
+def sortNat (l : List Nat) : List Nat := l.foldr insertSorted []
+
+def showTids (l : List Nat) : String := showList toString (sortNat l)
+
+/-- callers of key `k` that waited in `s` and hold in `s'` -/
+def woke (o : OSt) (k : Key) (s s' : State) : List Nat :=
+  (o.calls.filter (fun c => c.2.1 == k && (s k).waits c.1 && (s' k).holds c.1)).map (·.1)
+
+def callOf (o : OSt) (t : Tid) : Option (Tid × Key × Bool) := o.calls.find? (·.1 == t)
+
+def doAcquire (o : OSt) (t : Tid) (tok : String) (wr : Bool) (precancelled : Bool) : OSt × String :=
+  let (o, k) := intern o tok
+  let o := { o with calls := o.calls ++ [(t, k, wr)] }
+  match step cfg o.rw o.st (.acquire t k wr) with
+  | none => (o, "bad-op")
+  | some s1 =>
+    if (s1 k).holds t then ({ o with st := s1 }, "granted")
+    else if !precancelled then ({ o with st := s1 }, "parked")
+    else match step cfg o.rw s1 (.cancel t k) with
+      | none => ({ o with st := s1 }, "ctx woke=[]")      -- doomed caller: never queued
+      | some s2 => ({ o with st := s2 }, "ctx woke=" ++ showTids (woke o k s1 s2))
+
+def stepLine (o : OSt) (line : String) : OSt × String :=
+  match words line with
+  | ["new", v, rw, prime] =>
+    if v != "single" && v != "wide" && v != "xhash" then (o, "bad-op") else
+    match natCanon rw 6, natCanon prime 4 with
+    | some rw, some _ => if rw == 0 then (o, "bad-op") else ({ OSt.empty with started := true, rw := rw }, "ok")
+    | _, _ => (o, "bad-op")
+  | [op, t, tok] =>
+    if !o.started then (o, "bad-op") else
+    let kind : Option (Bool × Bool) :=
+      if op == "acqR" then some (false, false) else if op == "acqW" then some (true, false)
+      else if op == "acqRx" then some (false, true) else if op == "acqWx" then some (true, true) else none
+    match kind, natCanon t 9 with
+    | some (wr, pc), some t =>
+      if !validKey tok || (callOf o t).isSome then (o, "bad-op") else doAcquire o t tok wr pc
+    | _, _ => (o, "bad-op")
+  | ["rel", t] =>
+    if !o.started then (o, "bad-op") else
+    match natCanon t 9 with
+    | none => (o, "bad-op")
+    | some t =>
+      match callOf o t with
+      | none => (o, "bad-op")
+      | some (_, k, _) =>
+        match step cfg o.rw o.st (.release t k) with
+        | none => (o, "bad-op")
+        | some s' => ({ o with st := s' }, "ok woke=" ++ showTids (woke o k o.st s'))
+  | ["cancel", t] =>
+    if !o.started then (o, "bad-op") else
+    match natCanon t 9 with
+    | none => (o, "bad-op")
+    | some t =>
+      match callOf o t with
+      | none => (o, "bad-op")
+      | some (_, k, _) =>
+        if (o.st k).waits t then
+          match step cfg o.rw o.st (.cancel t k) with
+          | none => (o, "bad-op")
+          | some s' => ({ o with st := s' }, "ctx woke=" ++ showTids (woke o k o.st s'))
+        else (o, "noop")
+  | ["inside", tok] =>
+    if !o.started || !validKey tok then (o, "bad-op") else
+    match findIdx o.keys tok with
+    | none => (o, "r=0 w=0")
+    | some k =>
+      let hs := o.calls.filter (fun c => c.2.1 == k && (o.st k).holds c.1)
+      (o, s!"r={(hs.filter (fun c => !c.2.2)).length} w={(hs.filter (fun c => c.2.2)).length}")
+  | ["who"] =>
+    if !o.started then (o, "bad-op") else
+    let ins := (o.calls.filter (fun c => (o.st c.2.1).holds c.1)).map (·.1)
+    let pk := (o.calls.filter (fun c => (o.st c.2.1).waits c.1)).map (·.1)
+    (o, s!"in={showTids ins} parked={showTids pk}")
+  | ["entries"] =>
+    if !o.started then (o, "bad-op") else
+    (o, toString ((List.range o.keys.length).filter (fun k => (o.st k).present)).length)
+  | ["state", tok] =>
+    if !o.started || !validKey tok then (o, "bad-op") else
+    match findIdx o.keys tok with
+    | none => (o, "cur=0 waiters=0 present=0")
+    | some k =>
+      match (o.st k).live with
+      | none => (o, "cur=0 waiters=0 present=0")
+      | some x => (o, s!"cur={x.cur} waiters={x.waiters.length} present=1")
+  | _ => (o, "bad-op")
+
+def main : IO Unit := oracleMain stepLine OSt.empty
